@@ -87,7 +87,14 @@ def _read_coords(ex, path, args, kwargs, node, fn):
     return r
 
 
+# the file models of THIS module, by name: a property module that relies on them lists them explicitly (install_repo_models), so that the
+# same names registered by another module (contracts/c12.py has its own, richer file model for the readers) cannot shadow them
+FILE_LIB = {"tables.open_file": _tb_open, "h5py.File": _h5_open, "tb.node.read_coordinates": _read_coords}
+
+
 def install_repo_models(lib):
+    for _k, _v in FILE_LIB.items():
+        lib.setdefault(_k, _v)
     @model("thejoker.utils.table_contains_column", doc="(repo helper, read-only) True iff the table has that column")
     def _tcc(ex, path, args, kwargs, node, fn):
         f = args[0]
